@@ -1625,6 +1625,12 @@ class Interp:
         def stamped_applies(i):
             if not (i.self_ty[0] == 'path' and i.self_ty[1].startswith('$')):
                 return True
+            # only impls stamped over *pattern* types (&T, Box<T>: the receiver mentions a generic of the impl) are filtered; impls
+            # stamped over concrete types (`impl FromPlain for $t` for i32, bool, ..) are told apart by pick_dup
+            real_gens = [g for g in i.gens if not g.startswith('$')]
+            recv = [self.p.fns[n].args[0][1] for ns in i.methods.values() for n in ns if self.p.fns[n].args]
+            if not recv or not all(any(re.search(r'\b' + re.escape(g) + r'\b', r_) for g in real_gens) for r_ in recv):
+                return True
             for ns in i.methods.values():
                 for n in ns:
                     a0 = self.p.fns[n].args[:1]
